@@ -27,6 +27,8 @@ def run(ctx, sess):
     ctx.rule('C13.8', 'string-block switch: after the reader moves to a fresh string block, no compare mixes a pointer into the old block with one into the new block, nothing is stored through an old-block pointer, the carried-over part ends at the old block\'s cursor, and a string that fills a whole block is rejected')
     ctx.rule('C13.10', 'user data text arrives whole through the threaded writer: jls_twr_user_data queues the measured length (strlen + 1) of a STRING / JSON item on every accepting path, as the synchronous call stores it (shared with C06.12)')
     ctx.rule('C13.11', 'writer and reader agree on the storage types of user data: every type for which jls_wr_user_data reaches the chunk write (other than behind a test of the list head, the placeholder that opens the list) is a type for which jls_core_user_data reaches the callback')
+    ctx.rule('C13.12', 'one separator per string: the reader skips the unit separator 0x1f that follows a terminator at most once (the test is not on a loop), as the writer emits exactly one - a string that itself begins with 0x1f keeps its first characters')
+    ctx.rule('C13.13', 'a payload larger than the read buffer arrives whole: the chunk read does not keep a pointer into the buffer across the call that grows it (shared with C10.28)')
     ctx.rule('C13.9', 'every stored item is delivered: in the reader loop that hands user data to the callback, no path leads from a chunk that was read successfully to the next iteration of the loop without passing the callback (only error returns leave the loop early)')
     ctx.rule('C13.7', 'absent strings: a char* field of a user definition is never passed to strlen/memcpy without a NULL test')
     r1(ctx, P)
@@ -40,6 +42,20 @@ def run(ctx, sess):
     carry_cursor_rule(ctx, P, 'C13.8')
     r9(ctx, P)
     storage_types_rule(ctx, P, 'C13.11')
+    separator_rule(ctx, P, 'C13.12')
+    from .c10c import r28 as _r28
+    class _Only:
+        def __init__(self, c): self.c = c
+        def __getattr__(self, k): return getattr(self.c, k)
+        def ob(self, rid, ok, function, construct, where='', detail='', witness=None):
+            if function == 'jls_core_rd_chunk':
+                return self.c.ob('C13.13', ok, function, construct, where, detail, witness)
+            return ok
+        def floor(self, *a): pass
+        def saw(self, *a, **k): pass
+    _r28(_Only(ctx), P)
+    if not any(o['rule'] == 'C13.13' for o in ctx.obligations):
+        ctx.ob('C13.13', True, 'jls_core_rd_chunk', 'no pointer into the read buffer is kept', P.fn('jls_core_rd_chunk').where(), 'the chunk read passes self->buf->start at each attempt')
     from .common import relay
     from . import c06 as _src_c06
     relay(ctx, sess, _src_c06.run, {'C06.12': 'C13.10'}, only_functions=('jls_twr_user_data',), minimum=1)
@@ -830,3 +846,33 @@ def carry_cursor_rule(ctx, P, rule):
                    'the part of the string that was carried into the new block is copied in bulk, but the block cursor stays where it was: the rest of the string is stored on top of it and the reader returns only the tail',
                    w.render() if w else None)
     ctx.note('%s: %d bulk copies after a string block switch' % (rule, n))
+
+
+
+def separator_rule(ctx, P, rule):
+    fn = P.fn('jls_buf_rd_str')
+    ctx.saw(fn)
+    tests = [b for b in fn.blocks.values() if b.cond is not None and any(const_of(m) == 0x1f for m in walk(b.cond)) and
+             any(m.get('op') == 'bin' and m['o'] in ('==', '!=') for m in walk(b.cond))]
+    if not tests:
+        raise AnalysisBroken('jls_buf_rd_str: test for the unit separator not found')
+    for b in tests:
+        seen, work = set(), [s_ for s_, _ in b.succs]
+        loop = False
+        while work:
+            x = work.pop()
+            if x is b:
+                # back to the test without reading another character of the payload into the string?
+                loop = True
+                break
+            if x.id in seen:
+                continue
+            seen.add(x.id)
+            # a store of a character into the string block means the next string character: not the same separator run
+            if any(ev.k == 'store' and any(m.get('op') == 'un' and m.get('o') == 'post++' and strip_casts(m['k'][0]).get('op') == 'member' and strip_casts(m['k'][0]).get('field') == 'cur' and
+                                            strip_casts(strip_casts(m['k'][0])['k'][0]).get('name') != fn.params[0]['name'] for m in walk(ev.store_parts()[0])) for ev in x.events):
+                continue
+            work.extend(s_ for s_, _ in x.succs)
+        ctx.ob(rule, not loop, fn.name, 'skip of the unit separator', b.events[-1].where() if b.events else fn.where(),
+               'at most one 0x1f is skipped after a terminator' if not loop else
+               'the separator test repeats: every 0x1f that follows a terminator is skipped, so a string that begins with 0x1f (any string but the first of its chunk) loses its leading characters')
